@@ -159,6 +159,7 @@ def handleCore (s : CoreState) (toks : List String) : CoreState × String :=
 
 def handle (s : DrvState) (toks : List String) : DrvState × String :=
   match toks with
+  | "rim" :: "create" :: rest => (s, Rim4.handleCreate rest)
   | "rim" :: "hail" :: rest => (s, Rim4.handleHail rest)
   | "rim" :: "incl" :: rest => (s, Rim4.handleIncl rest)
   | "rim" :: "mode" :: rest => (s, Rim3.handleMode rest)
